@@ -386,6 +386,38 @@ func counterStep(in ssa.Instruction) (*types.Var, int) {
 	return fieldVarOf(fa), -1
 }
 
+// lockWrapperCallOf: lit is a function literal handed, in its parent, to a repo function that
+// calls its parameter on every path; returns that call.
+func (c *Ctx) lockWrapperCallOf(lit *ssa.Function) ssa.CallInstruction {
+	p := lit.Parent()
+	if p == nil {
+		return nil
+	}
+	var found ssa.CallInstruction
+	eachCall(p, func(call ssa.CallInstruction) {
+		if found != nil {
+			return
+		}
+		if _, isGo := call.(*ssa.Go); isGo {
+			return
+		}
+		h := call.Common().StaticCallee()
+		if h == nil || h.Blocks == nil {
+			return
+		}
+		for i, a := range call.Common().Args {
+			mc, ok := a.(*ssa.MakeClosure)
+			if !ok || mc.Fn != ssa.Value(lit) || i >= len(h.Params) {
+				continue
+			}
+			if c.mustCallParam(h, h.Params[i]) {
+				found = call
+			}
+		}
+	})
+	return found
+}
+
 // goAfter: the go statements that can execute after in, in in's function.
 func goAfter(in ssa.Instruction) []*ssa.Go {
 	var out []*ssa.Go
@@ -581,7 +613,17 @@ func (c *Ctx) ruleQ5() {
 					}
 					cons := fmt.Sprintf("%s#counter:%s#%d", fnKey(f), cv.Name(), k)
 					k++
-					if ok, hit, tr := c.releasedAfter(f, after(in), dec, 0); !ok {
+					host, start := f, after(in)
+					// incremented inside a function literal handed to a "run this under the
+					// lock" helper: the literal runs where the helper is called
+					if f.Parent() != nil {
+						if cs := c.lockWrapperCallOf(f); cs != nil {
+							if hit, _ := findPath(f, after(in), decVia, anyReturn, nil); hit != nil {
+								host, start = cs.Parent(), after(cs)
+							}
+						}
+					}
+					if ok, hit, tr := c.releasedAfter(host, start, dec, 0); !ok {
 						c.bad("Q5", cons, hit.Pos(), fmt.Sprintf("%s is incremented in the worker and a path to its return skips the decrement (neither here nor in the callers): the idle test stays false and load-end never fires again", cv.Name()), c.trailStr(tr)...)
 					} else {
 						c.ok("Q5", cons, in.Pos(), "every increment of "+cv.Name()+" is followed by its decrement on every path (here or, for a helper, in each caller)")
@@ -623,8 +665,34 @@ func (c *Ctx) ruleQ5() {
 						})
 					}
 				})
+				// reaches the dequeue by synchronous calls (a goroutine it starts is another worker)
+				var syncReach func(h *ssa.Function, d int) bool
+				syncReach = func(h *ssa.Function, d int) bool {
+					if h == nil || h.Blocks == nil || d > 3 {
+						return false
+					}
+					found := false
+					eachCall(h, func(x ssa.CallInstruction) {
+						if found {
+							return
+						}
+						if _, isGo := x.(*ssa.Go); isGo {
+							return
+						}
+						if isDequeue(x) {
+							found = true
+							return
+						}
+						if g := x.Common().StaticCallee(); g != nil && g.Pkg == h.Pkg && g != h {
+							if syncReach(g, d+1) {
+								found = true
+							}
+						}
+					})
+					return found
+				}
 				for _, w := range cands {
-					if w.Parent() == nil && !isEnqueue(w) && c.reachesStatic(w, isDequeue, 0) {
+					if w.Parent() == nil && !isEnqueue(w) && syncReach(w, 0) {
 						// the function that dequeues itself is a step of the worker, not the worker
 						direct := false
 						eachCall(w, func(call ssa.CallInstruction) {
